@@ -51,8 +51,8 @@ CHECKS = {
         'engine': 'langx',
         'rule': 'bounded-exhaustive strings through the escaper and every printing tag position',
         'parts': [
-            P('props/C03.cpp', 'asan', 'escape-asan', tier_args={'quick': ['--units', '4', '--posunits', '2'], 'thorough': ['--units', '5', '--posunits', '3']}),
-            P('props/C03.cpp', 'fast', 'escape-fast', tier_args={'quick': ['--units', '5', '--posunits', '3'], 'thorough': ['--units', '6', '--posunits', '4']}),
+            P('props/C03.cpp', 'asan', 'escape-asan', tier_args={'quick': ['--units', '4', '--posunits', '2'], 'thorough': ['--units', '6', '--posunits', '3']}),
+            P('props/C03.cpp', 'fast', 'escape-fast', tier_args={'quick': ['--units', '5', '--posunits', '3'], 'thorough': ['--units', '7', '--posunits', '4']}),
             P('props/C03.cpp', 'fast+noesc', 'escape-off', tier_args={'quick': ['--units', '4', '--posunits', '2'], 'thorough': ['--units', '5', '--posunits', '3']}),
         ],
         'floor': {'quick': 20, 'thorough': 20},
@@ -166,7 +166,7 @@ CHECKS = {
         'engine': 'numx',
         'rule': 'numeral lattices vs strtod',
         'parts': [
-            P('props/C09.cpp', 'fast', 'lattice-fast'),
+            P('props/C09.cpp', 'fast', 'lattice-fast', tier_args={'thorough': ['--sig', '99999', '--strlen', '8']}),
             P('props/C09.cpp', 'asan', 'lattice-asan', tier_args={'quick': ['--sig', '99', '--patterns', '4', '--strlen', '5'],
                                                                  'thorough': ['--sig', '999', '--patterns', '16', '--strlen', '6']}),
         ],
@@ -177,7 +177,7 @@ CHECKS = {
         'rule': 'generated RFC 8259 documents vs reference parser',
         'parts': [
             P('props/C06.cpp', 'asan', 'docs-asan', tier_args={'quick': ['--nodes', '4'], 'thorough': ['--nodes', '5']}),
-            P('props/C06.cpp', 'fast', 'docs-fast', tier_args={'quick': ['--nodes', '5'], 'thorough': ['--nodes', '6']}),
+            P('props/C06.cpp', 'fast', 'docs-fast', tier_args={'quick': ['--nodes', '5'], 'thorough': ['--nodes', '7']}),
         ],
         'floor': {'quick': 1000, 'thorough': 1000},
     },
@@ -186,7 +186,7 @@ CHECKS = {
         'rule': 'rejection families of generated documents',
         'parts': [
             P('props/C07.cpp', 'asan', 'families-asan', tier_args={'quick': ['--nodes', '3', '--units', '4'], 'thorough': ['--nodes', '4', '--units', '5']}),
-            P('props/C07.cpp', 'fast', 'families-fast', tier_args={'quick': ['--nodes', '4', '--units', '5'], 'thorough': ['--nodes', '5', '--units', '6']}),
+            P('props/C07.cpp', 'fast', 'families-fast', tier_args={'quick': ['--nodes', '4', '--units', '5'], 'thorough': ['--nodes', '6', '--units', '6']}),
         ],
         'floor': {'quick': 1000, 'thorough': 1000},
     },
